@@ -20,7 +20,7 @@ Definition summary (r : list result * option sys) :=
 
 def run_vm(ctx, seq_cases, n=48, shards=8, timeout=900):
     """returns (checked, failures[str])"""
-    sample = sorted([c for c in seq_cases if c.startswith("SEQ ") and len(c) < 2500], key=len)[-n:]
+    sample = sorted([c for c in seq_cases if c.startswith("SEQ ") and len(c) < 1500], key=len)[-n:]
     if not sample:
         return 0, []
     lines = ["COQ %d %s" % (i, c[4:]) for i, c in enumerate(sample)]
